@@ -109,6 +109,15 @@ pub fn cycle_check(m1: &A2lFile, k: usize, origin_text: &str) -> Result<(), (Str
                     format!("cycle {cycle}: load(write(M)) != M; {}", model_diff(reference, &m2)),
                 ));
             }
+            // both known shapes at once
+            normalise_reserved(&mut s1);
+            normalise_reserved(&mut s2);
+            if s1 == s2 {
+                return Err((
+                    "reloaded model differs only in the order of RESERVED items and of list elements".to_string(),
+                    format!("cycle {cycle}: load(write(M)) != M; {}", model_diff(reference, &m2)),
+                ));
+            }
             return Err((
                 format!("reloaded model differs{suffix}"),
                 format!(
@@ -330,10 +339,11 @@ pub fn run(args: &Args, rec: &mut Recorder) {
                 }
                 Ok(Err(e)) => {
                     rec.bump("rejected");
-                    rec.bump(&format!("rejected.{}", crate::gram::err_class(&e)));
-                    if rec.hist.get("rejected").copied().unwrap_or(0) <= 2 {
-                        rec.notes.push(format!("rejected G-doc document: {e}"));
-                    }
+                    rec.violation(
+                        &format!("document generated from the reference grammar is rejected: {}", crate::gram::err_class(&e)),
+                        &e.to_string(),
+                        witness_text("G-doc/string", &r.text, ""),
+                    );
                     return None;
                 }
                 Ok(Ok((m, _))) => m,
@@ -351,7 +361,7 @@ pub fn run(args: &Args, rec: &mut Recorder) {
                 rec.bump("edited_models");
                 let swapped = rec.hist.get("edit.swap_remove").copied().unwrap_or(0) > swaps_before;
                 if let Err((sig, detail)) = cycle_check(&m, k, "") {
-                    let sig = if sig.contains("order of RESERVED items") {
+                    let sig = if sig.ends_with("(input not in position order)") {
                         sig
                     } else {
                         format!("{sig} [after API edits{}]", if swapped { " incl. swap_remove" } else { "" })
